@@ -135,6 +135,7 @@ const _: () = assert!(libc::EPERM == 1 && libc::EIO == 5 && libc::EAGAIN == 11 &
 const _: () = assert!(rustix::io::Errno::IO.raw_os_error() == 5 && rustix::io::Errno::AGAIN.raw_os_error() == 11 && rustix::io::Errno::ACCESS.raw_os_error() == 13 && rustix::io::Errno::BUSY.raw_os_error() == 16 && rustix::io::Errno::INVAL.raw_os_error() == 22 && rustix::io::Errno::NOSPC.raw_os_error() == 28 && rustix::io::Errno::INTR.raw_os_error() == 4 && rustix::io::Errno::OPNOTSUPP.raw_os_error() == 95);
 const _: () = assert!(linux_raw_sys::ioctl::FICLONE == 0x40049409);
 const _: () = assert!(linux_raw_sys::ioctl::FIEMAP_EXTENT_LAST == 0x1 && linux_raw_sys::ioctl::FIEMAP_EXTENT_SHARED == 0x2000);
+const _: () = assert!(linux_raw_sys::ioctl::FIEMAP_EXTENT_UNKNOWN == 2 && linux_raw_sys::ioctl::FIEMAP_EXTENT_DELALLOC == 4 && linux_raw_sys::ioctl::FIEMAP_EXTENT_ENCODED == 8 && linux_raw_sys::ioctl::FIEMAP_EXTENT_DATA_INLINE == 512 && linux_raw_sys::ioctl::FIEMAP_EXTENT_UNWRITTEN == 2048 && linux_raw_sys::ioctl::FIEMAP_EXTENT_MERGED == 4096 && linux_raw_sys::ioctl::FIEMAP_FLAG_SYNC == 1);
 const _: () = assert!(rustix::io::Errno::NOSYS.raw_os_error() == 38 && rustix::io::Errno::PERM.raw_os_error() == 1
     && rustix::io::Errno::XDEV.raw_os_error() == 18 && rustix::io::Errno::NXIO.raw_os_error() == 6);
 const _: () = assert!(std::mem::size_of::<usize>() == 8);
